@@ -3,9 +3,9 @@ import DuneVerif.Model.C14
 
     map     IT PAT LAY CTOR EXTS [STRIDES]
     conv    IT PAT LAY KIND EXTS [STRIDES]
-    mdspan  IT PAT LAY ACC  EXTS [STRIDES]
+    mdspan  IT PAT LAY ACC  EXTS [STRIDES]    (ACC: access form call|arr|span|br, or constructor form acc|vdyn|vfull|adyn|sdyn|sfull|def|swap)
     mdarray IT PAT LAY CTOR ACC EXTS          (CTOR incl. arrext|arrval|arrcont: std::array container)
-    span    N EXT : op;op;…
+    span    N EXT [VIA] : op;op;…             (VIA: how the initial span is constructed)
 -/
 open DV DV.C14
 
@@ -106,14 +106,11 @@ def handleConv (ws : List String) : String :=
   | some (p, l, kind, e, m) =>
     match kind with
     | "stride" =>
-      -- rank 0: layout_stride::mapping has no constructor from another mapping type
-      if p.length = 0 && l ≠ .stride then "bad-op" else
       let mid := m.toStride
       match mid.convertTo l with
       | some fin => "mid=" ++ mapBlock mid ++ " fin=" ++ mapBlock fin
       | none => "bad-op"
     | "dyn" =>
-      if p.length = 0 && l = .stride then "bad-op" else
       let pd : Pattern := p.map fun _ => none
       match Extents.convert pd e with
       | none => "bad-op"
@@ -146,6 +143,12 @@ def handleConv (ws : List String) : String :=
 def validAcc (acc : String) (rank : Nat) : Bool :=
   acc == "call" || acc == "arr" || acc == "span" || (acc == "br" && rank == 1)
 
+/-- mdspan op: access forms plus the constructor forms (custom accessor, variadic / array / span extents of `rank` or
+    `rank_dynamic` values, default construction + assignment, swap); `def` needs a dynamic extent -/
+def validMdspanForm (acc : String) (p : Pattern) : Bool :=
+  validAcc acc p.length || ["acc", "vdyn", "vfull", "adyn", "sdyn", "sfull", "swap"].contains acc ||
+  (acc == "def" && rankDynamic p != 0)
+
 def isFull (ws : List String) : Bool :=
   match ws with
   | it :: pat :: _ => fullTable.contains (it ++ ":" ++ pat)
@@ -154,7 +157,7 @@ def isFull (ws : List String) : Bool :=
 def handleMdspan (ws : List String) : String :=
   match parseMapping ws (fun _ => "afull") with
   | some (p, _, acc, _, m) =>
-    if !validAcc acc p.length || !isFull ws then "bad-op" else
+    if !validMdspanForm acc p || !isFull ws then "bad-op" else
     let a : Md := ⟨m, iotaInt m.requiredSpan fun k => (k : Int)⟩
     let b := writeAll a
     "size=" ++ toString (mdSize m.rank m.ext) ++ " empty=" ++ showB (mdSize m.rank m.ext == 0) ++
@@ -177,15 +180,23 @@ def handleMdarray (ws : List String) : String :=
         | "arrext" => if p.length = 0 || rankDynamic p ≠ 0 then none else some (Md.new m 0)
         | "arrval" => if p.length = 0 || rankDynamic p ≠ 0 then none else some (Md.new m 7)
         | "arrcont" => if p.length = 0 || rankDynamic p ≠ 0 then none else some ⟨m, iotaInt rss fun k => 10 + (k : Int)⟩
-        | "cont" | "contmv" | "copy" | "conv" => some ⟨m, iotaInt rss fun k => 10 + (k : Int)⟩
+        | "cont" | "contmv" | "copy" | "conv" | "contmve" | "contal" | "contmval" | "mapcontal" | "mapcontmval" | "copyal" =>
+          some (Md.fromContainer m (iotaInt rss fun k => 10 + (k : Int)))
+        | "extvalal" => some (Md.new m 7)
+        -- swap(a, b) with a default-shaped (all dynamic extents 0) and b built from a container: a becomes b
+        | "swap" => some (Md.swap (Md.new (mkMapping l (Extents.dflt p) []) 0) (Md.fromContainer m (iotaInt rss fun k => 10 + (k : Int)))).1
+        -- mdarray(): needs a dynamic extent; all dynamic extents are 0
+        | "default" =>
+          if rankDynamic p = 0 || toList m.rank m.ext != (Extents.dflt p).toList then none
+          else some (Md.new (mkMapping l (Extents.dflt p) []) 0)
         | "span" | "spanal" => some (Md.fromMdspan m ⟨m, iotaInt rss fun k => 3 * (k : Int) + 1⟩)
-        | "strided" => if p.length = 0 then none else some (Md.fromMdspan m ⟨m.toStride, iotaInt rss fun k => 3 * (k : Int) + 1⟩)
+        | "strided" => some (Md.fromMdspan m ⟨m.toStride, iotaInt rss fun k => 3 * (k : Int) + 1⟩)
         | _ => none
       match init with
       | none => "bad-op"
       | some a =>
         let b := writeAll a
-        "csize=" ++ toString a.data.length ++ " size=" ++ toString (mdSize m.rank m.ext) ++ " ext=" ++ showList (extOf m) ++
+        "csize=" ++ toString a.data.length ++ " size=" ++ toString (mdarraySize a.map.rank a.map.ext) ++ " ext=" ++ showList (extOf a.map) ++
         " init=" ++ showList a.data ++ " cont=" ++ showList b.data ++ " view=" ++ readAll b
     | none => "bad-op"
   | _ => "bad-op"
@@ -200,14 +211,14 @@ def spanOp (mem : List Int) (ext : Option Nat) (s : Span) (op : String) : Option
   let obs (e : Option Nat) (t : Span) : Option (Option Nat × Span × String) :=
     some (e, t, "ext=" ++ showExt e ++ " size=" ++ toString t.size ++ " elems=" ++ showList (t.elems mem))
   match tokens op with
-  | ["first", c] => c.toNat?.bind fun c => (s.first c).bind fun t => obs none t
-  | ["last", c] => c.toNat?.bind fun c => (s.last c).bind fun t => obs none t
-  | ["sub", o, c] => o.toNat?.bind fun o => (parseCount c).bind fun c => (s.subspan o c).bind fun t => obs none t
-  | ["tfirst", c] => c.toNat?.bind fun c => if c > 4 then none else (s.first c).bind fun t => obs (some c) t
-  | ["tlast", c] => c.toNat?.bind fun c => if c > 4 then none else (s.last c).bind fun t => obs (some c) t
+  | ["first", c] => c.toNat?.bind fun c => (s.apply (.first c)).bind fun t => obs none t
+  | ["last", c] => c.toNat?.bind fun c => (s.apply (.last c)).bind fun t => obs none t
+  | ["sub", o, c] => o.toNat?.bind fun o => (parseCount c).bind fun c => (s.apply (.sub o c)).bind fun t => obs none t
+  | ["tfirst", c] => c.toNat?.bind fun c => if c > 4 then none else (s.apply (.first c)).bind fun t => obs (some c) t
+  | ["tlast", c] => c.toNat?.bind fun c => if c > 4 then none else (s.apply (.last c)).bind fun t => obs (some c) t
   | ["tsub", o, c] => o.toNat?.bind fun o => (parseCount c).bind fun c =>
       if o > 4 || (match c with | some c => decide (c > 4) | none => false) then none
-      else (s.subspan o c).bind fun t => obs (subspanExtent ext o c) t
+      else (s.apply (.sub o c)).bind fun t => obs (subspanExtent ext o c) t
   | ["at", i] => i.toNat?.bind fun i =>
       some (ext, s, "at=" ++ (match s.at? mem i with | some v => toString v | none => "ERR:Range"))
   | ["fb"] =>
@@ -220,14 +231,25 @@ def spanOp (mem : List Int) (ext : Option Nat) (s : Span) (op : String) : Option
       some (none, s, "ext=d size=" ++ toString s.size ++ " elems=" ++ showList (s.elems mem))
   | _ => none
 
+/-- constructor forms of the initial span: pointer+size, iterator pair, range, C array / std::array (compile-time
+    sizes: a static extent ≥ 1, or 8 elements for a dynamic extent), default constructor (empty spans only) -/
+def validVia (via : String) (ext : Option Nat) (n : Nat) : Bool :=
+  via == "ptr" || via == "iters" || via == "range" ||
+  ((via == "carr" || via == "stdarr") && (match ext with | some e => e ≥ 1 | none => n == 8)) ||
+  (via == "def" && n == 0)
+
 def handleSpan (line : String) : String :=
   match line.splitOn " : " with
   | [hd, ops] =>
-    match tokens hd with
-    | ["span", n, ext] =>
+    let hdt := match tokens hd with
+      | ["span", n, ext] => some (n, ext, "ptr")
+      | ["span", n, ext, via] => some (n, ext, via)
+      | _ => none
+    match hdt with
+    | some (n, ext, via) =>
       match n.toNat?, parseCount ext with
       | some n, some ext =>
-        if (match ext with | some e => e != n || e > 4 | none => false) || n > 64 then "bad-op" else
+        if (match ext with | some e => e != n || e > 4 | none => false) || n > 64 || !validVia via ext n then "bad-op" else
         let mem := iotaInt n fun k => 10 + (k : Int)
         let rec go (ops : List String) (ext : Option Nat) (s : Span) (acc : List String) (first : Bool) : Option (List String) :=
           match ops with
@@ -243,7 +265,7 @@ def handleSpan (line : String) : String :=
         | some obs => ";".intercalate obs
         | none => "bad-op"
       | _, _ => "bad-op"
-    | _ => "bad-op"
+    | none => "bad-op"
   | _ => "bad-op"
 
 def handle (line : String) : String :=
